@@ -8,7 +8,6 @@ from fractions import Fraction
 
 from ..core import Op
 from ..rat import rat, frac, rat_opt, round_once_eq, tol_eq
-from .. import symtrace as st
 from ..symtrace import Sym
 from .. import gen_geom
 
